@@ -30,13 +30,21 @@ static ext2_filsys g_fs;
 static FILE *g_fp;
 static blk64_t *g_list;
 
-#define JW_D() (G.draw++ & (JW_NDRAW - 1))
+/*
+ * Every stub works on a LOCAL copy g of the ghost object and stores it back once (JW_BEGIN / JW_END): inside a cut loop
+ * DFCC checks every assignment to non-local memory against the loop's write set (an inclusion loop over all assigns
+ * targets, ~10^4 solver variables per checked assignment); forty field updates of G per iteration cost more than the
+ * whole real function.  The unit's monitors take and return the copy by value for the same reason.
+ */
+#define JW_BEGIN struct jw_ghost g = G
+#define JW_END G = g
+#define JW_D() (g.draw++ & (JW_NDRAW - 1))
 /* the FIRST failure is the one the function has to report */
-#define JW_FAIL(e) do { if (!G.failed) { G.failed = 1; G.fail_code = (int)(e); } } while (0)
+#define JW_FAIL(e) do { if (!g.failed) { g.failed = 1; g.fail_code = (int)(e); } } while (0)
 
 /* the including unit's monitors (defined after this header) */
-static void jw_on_write(struct buffer_head *bh, unsigned long long logical);
-static void jw_on_read(struct buffer_head *bh, unsigned long long logical);
+static struct jw_ghost jw_on_write(struct jw_ghost g, struct buffer_head *bh, unsigned long long logical);
+static struct jw_ghost jw_on_read(struct jw_ghost g, struct buffer_head *bh, unsigned long long logical);
 
 struct buffer_head *getblk(kdev_t kdev, unsigned long long blocknr, int blocksize)
 {
@@ -76,29 +84,33 @@ void mark_buffer_uptodate(struct buffer_head *bh, int val)
 
 static void jw_dev_write(struct buffer_head *bh)
 {
+	JW_BEGIN;
 	unsigned int d = JW_D();
 	long e = IN.err[d];
 	CHECK(bh->b_blocknr >= IN.map_off, "write: at a block jbd2_journal_bmap produced");
-	jw_on_write(bh, bh->b_blocknr - IN.map_off);
+	g = jw_on_write(g, bh, bh->b_blocknr - IN.map_off);
 	/* (written without branches on purpose: every conditional change of a buffer head costs the verifier a merge
-	 * of the whole 4 KiB object) failure: b_err = error, b_dirty stays; success: b_dirty = 0, b_uptodate = 1 */
+	 * of the whole object) failure: b_err = error, b_dirty stays; success: b_dirty = 0, b_uptodate = 1 */
 	bh->b_err = e ? (int)e : bh->b_err;
 	bh->b_dirty = e ? bh->b_dirty : 0;
 	bh->b_uptodate = e ? bh->b_uptodate : 1;
 	if (e)
 		JW_FAIL(e);
+	JW_END;
 }
 
 static void jw_dev_read(struct buffer_head *bh)
 {
+	JW_BEGIN;
 	unsigned int d = JW_D();
 	long e = IN.err[d];
 	CHECK(bh->b_blocknr >= IN.map_off, "read: at a block jbd2_journal_bmap produced");
-	jw_on_read(bh, bh->b_blocknr - IN.map_off);
+	g = jw_on_read(g, bh, bh->b_blocknr - IN.map_off);
 	bh->b_err = e ? (int)e : bh->b_err;
 	bh->b_uptodate = e ? bh->b_uptodate : 1;
 	if (e)
 		JW_FAIL(e);
+	JW_END;
 }
 
 void ll_rw_block(int rw, int op_flags, int nr, struct buffer_head *bhp[])
@@ -123,9 +135,10 @@ void brelse(struct buffer_head *bh)
 		if (G.failed) {
 			/* still dirty after a failed write: the release retries it; behaviour after a reported failure
 			 * is outside the statement (the function only has to return the error) */
+			JW_BEGIN;
 			unsigned int d = JW_D();
-			if (!IN.err[d])
-				bh->b_dirty = 0;
+			bh->b_dirty = IN.err[d] ? bh->b_dirty : 0;
+			JW_END;
 		} else {
 			jw_dev_write(bh);
 		}
@@ -136,22 +149,28 @@ void brelse(struct buffer_head *bh)
 
 int jbd2_journal_bmap(journal_t *journal, unsigned long block, unsigned long long *phys)
 {
+	JW_BEGIN;
 	unsigned int d = JW_D();
 	long e = IN.err[d];
 	CHECK(journal == g_journal, "bmap: on the journal");
 	*phys = e ? (unsigned long long)IN.u32[d] : block + IN.map_off;
 	if (e)
 		JW_FAIL(e);
+	JW_END;
 	return (int)e;
 }
 
 blk64_t ext2fs_blocks_count(struct ext2_super_block *super)
 {
 	CHECK(super == g_fs->super, "blocks count of the filesystem the journal belongs to");
-	G.nticks++;
+	{
+		JW_BEGIN;
+		g.nticks++;
 #ifdef JW_TICK_COUNTS_RECORD
-	G.ntags++;
+		g.ntags++;
 #endif
+		JW_END;
+	}
 	return IN.fs_blocks;
 }
 
@@ -164,25 +183,28 @@ blk64_t ext2fs_blocks_count(struct ext2_super_block *super)
 #endif
 void jbd2_block_tag_csum_set(journal_t *j, journal_block_tag_t *tag, struct buffer_head *bh, __u32 sequence)
 {
+	JW_BEGIN;
 	unsigned int d = JW_D();
 	CHECK(j == g_journal && bh == JW_DATA_BH && bh->b_size == (int)g_bs, "tag checksum: over the j_blocksize bytes of the data buffer");
 	CHECK(sequence == g_tid, "tag checksum: seeded with the transaction's sequence number");
-	CHECK(G.phase == 1, "tag checksum: once per block, after the block was read");
-	G.csum_w0 = JW_BE32(bh->b_data, 0);
-	G.csum_k = B(bh->b_data)[g_k];
-	G.tag = B(tag);
-	G.csum_val = IN.u32[d];
+	CHECK(g.phase == 1, "tag checksum: once per block, after the block was read");
+	g.csum_w0 = JW_BE32(bh->b_data, 0);
+	g.csum_k = B(bh->b_data)[g_k];
+	g.tag = B(tag);
+	g.csum_val = IN.u32[d];
 	if (g_v3) {
-		B(tag)[12] = JW_BE_BYTE(G.csum_val, 4, 0); B(tag)[13] = JW_BE_BYTE(G.csum_val, 4, 1);
-		B(tag)[14] = JW_BE_BYTE(G.csum_val, 4, 2); B(tag)[15] = JW_BE_BYTE(G.csum_val, 4, 3);
+		B(tag)[12] = JW_BE_BYTE(g.csum_val, 4, 0); B(tag)[13] = JW_BE_BYTE(g.csum_val, 4, 1);
+		B(tag)[14] = JW_BE_BYTE(g.csum_val, 4, 2); B(tag)[15] = JW_BE_BYTE(g.csum_val, 4, 3);
 	} else if (g_csum_on) {
-		B(tag)[4] = JW_BE_BYTE(G.csum_val & 0xFFFFu, 2, 0); B(tag)[5] = JW_BE_BYTE(G.csum_val & 0xFFFFu, 2, 1);
+		B(tag)[4] = JW_BE_BYTE(g.csum_val & 0xFFFFu, 2, 0); B(tag)[5] = JW_BE_BYTE(g.csum_val & 0xFFFFu, 2, 1);
 	}
-	G.phase = 2;
+	g.phase = 2;
+	JW_END;
 }
 
 static void jw_seal(journal_t *j, struct buffer_head *bh, unsigned long field_off)
 {
+	JW_BEGIN;
 	unsigned int d = JW_D();
 	CHECK(j == g_journal && bh == JW_META_BH, "block checksum: on the journal metadata buffer");
 	if (g_csum_on) {
@@ -190,8 +212,9 @@ static void jw_seal(journal_t *j, struct buffer_head *bh, unsigned long field_of
 		B(bh->b_data)[field_off] = JW_BE_BYTE(v, 4, 0); B(bh->b_data)[field_off + 1] = JW_BE_BYTE(v, 4, 1);
 		B(bh->b_data)[field_off + 2] = JW_BE_BYTE(v, 4, 2); B(bh->b_data)[field_off + 3] = JW_BE_BYTE(v, 4, 3);
 	}
-	G.sealed = 1;
-	G.seal_k = B(bh->b_data)[g_kd];
+	g.sealed = 1;
+	g.seal_k = B(bh->b_data)[g_kd];
+	JW_END;
 }
 void jbd2_descr_block_csum_set(journal_t *j, struct buffer_head *bh)
 {
@@ -211,40 +234,45 @@ void jbd2_commit_block_csum_set(journal_t *j, struct buffer_head *bh)
 }
 /* at the write of a metadata block: it is byte for byte the block its checksum was set on */
 #define JW_CHECK_SEALED(bh) do { \
-	CHECK(G.sealed == 1, "the block checksum is set after the last change to the block and before its write"); \
-	CHECK(B((bh)->b_data)[g_kd] == G.seal_k, "the block reaches the log exactly as it was when its checksum was set"); \
-	G.sealed = 0; } while (0)
+	CHECK(g.sealed == 1, "the block checksum is set after the last change to the block and before its write"); \
+	CHECK(B((bh)->b_data)[g_kd] == g.seal_k, "the block reaches the log exactly as it was when its checksum was set"); \
+	g.sealed = 0; } while (0)
 
 #ifdef JW_WANT_FREAD
 /* fread(buf, j_blocksize, 1, fp): one block from the data file, or nothing (end of file / error) */
 size_t fread(void *ptr, size_t size, size_t n, FILE *fp)
 {
+	JW_BEGIN;
 	unsigned int d = JW_D();
+	size_t got = (IN.choice[d] & 2) ? 0 : 1;
 	CHECK(ptr == (void *)JW_DATA_BH->b_data && size == g_bs && n == 1 && fp == g_fp, "fread: one j_blocksize record into the data buffer");
-	CHECK(G.phase == 0, "fread: only after the previous block went to the log");
-	if (IN.choice[d] & 2) {
-		G.eof = 1;
-		return 0;
-	}
+	CHECK(g.phase == 0, "fread: only after the previous block went to the log");
 	/* new content: nothing is written here - the buffer content is arbitrary at this point (fresh object in the first
 	 * iteration, havocked by the loop cut in the arbitrary one), which IS "fread delivered an arbitrary record" */
-	G.orig_w0 = JW_BE32(ptr, 0);
-	G.orig_k = B(ptr)[g_k];
-	G.nread++;
-	G.phase = 1;
-	return 1;
+	if (got) {
+		g.orig_w0 = JW_BE32(ptr, 0);
+		g.orig_k = B(ptr)[g_k];
+		g.nread++;
+		g.phase = 1;
+	} else {
+		g.eof = 1;
+	}
+	JW_END;
+	return got;
 }
 #endif
 
 __u32 ext2fs_crc32_be(__u32 crc, unsigned char const *p, size_t len)
 {
+	JW_BEGIN;
 	unsigned int d = JW_D();
 	CHECK(p == B(JW_SCRATCH_BH->b_data) && len == g_bs, "v1 transaction checksum: over one whole journal block");
-	CHECK(crc == G.v1_crc, "v1 transaction checksum: chained from the previous block's value");
-	CHECK(G.v1_read == 1, "v1 transaction checksum: folds a block that was just read from the log");
-	G.v1_read = 0;
-	G.v1_crc = IN.u32[d];
-	return G.v1_crc;
+	CHECK(crc == g.v1_crc, "v1 transaction checksum: chained from the previous block's value");
+	CHECK(g.v1_read == 1, "v1 transaction checksum: folds a block that was just read from the log");
+	g.v1_read = 0;
+	g.v1_crc = IN.u32[d];
+	JW_END;
+	return g.v1_crc;
 }
 
 int gettimeofday(struct timeval *tv, void *tz)
@@ -260,10 +288,13 @@ static void jw_build(void)
 {
 	LOAD_IN();
 	g_journal = malloc(sizeof(*g_journal));
-	g_jsb = malloc(1024);				/* arbitrary content */
+	/* struct-typed (1024 bytes) so that the verifier tracks s_feature_incompat as a value of its own */
+	journal_superblock_t *jsb = malloc(sizeof(journal_superblock_t));	/* arbitrary content */
+	g_jsb = (unsigned char *)jsb;
 	g_fs = malloc(sizeof(*g_fs));
 	struct ext2_super_block *sb = malloc(1024);	/* arbitrary content */
 	struct kdev_s *devs = malloc(2 * sizeof(*devs));
+	CHECK(sizeof(journal_superblock_t) == 1024, "journal superblock is 1024 bytes");
 	ASSUME(g_journal && g_jsb && g_fs && sb && devs);
 	memset(g_journal, 0, sizeof(*g_journal));
 	memset(g_fs, 0, sizeof(*g_fs));
@@ -271,7 +302,16 @@ static void jw_build(void)
 	IN.blocksize = JW_BS;		/* block size fixed per unit (constant object sizes) */
 #endif
 	ASSUME(IN.blocksize == 1024 || IN.blocksize == 4096);
+#ifdef JW_VER
+	IN.version = JW_VER;		/* superblock version and the three feature bits the writer looks at fixed per unit */
+#endif
 	ASSUME(IN.version == 1 || IN.version == 2);
+#ifdef JW_INCOMPAT
+	/* s_feature_incompat (be32 at 0x28) = JW_INCOMPAT: a constant, so that tag size / checksum mode fold away
+	 * (little-endian host: the in-memory word is the byte-swapped value) */
+	jsb->s_feature_incompat = ((JW_INCOMPAT & 0xFFu) << 24) | ((JW_INCOMPAT & 0xFF00u) << 8) | ((JW_INCOMPAT >> 8) & 0xFF00u) | ((JW_INCOMPAT >> 24) & 0xFFu);
+	CHECK(JW_BE32(g_jsb, JW_SB_INCOMPAT) == JW_INCOMPAT, "feature word as configured");
+#endif
 	g_fs->super = sb;
 	g_fs->blocksize = IN.blocksize;
 	devs[0].k_fs = g_fs; devs[0].k_dev = K_DEV_FS;
